@@ -303,6 +303,7 @@ func (vc *VC) strToBytes(st *State, s Val, t types.Type) Val {
 	l := &Loc{Kind: LElem, T: types.Typ[types.Uint8]}
 	name, srt := vc.regComp(l, leavesOf(types.Typ[types.Uint8])[0])
 	h := vc.heapGet(st, name, srt)
+	s.S = vc.patAtom(s.S, "Str")
 	na := vc.fresh("bytesof")
 	vc.declare(na, "(Array Int Int)")
 	vc.axiom(fmt.Sprintf("(forall ((i Int)) (! (=> (and (<= 0 i) (< i (strlen %s))) (= (select %s i) (strat %s i))) :pattern ((select %s i))))", s.S, na, s.S, na))
